@@ -30,6 +30,15 @@ ASSUMPTIONS = [
 UNITS = ["nm", "um", "m", "angstrom"]
 
 
+def _spread(wave_nm):
+    """sampled wavelengths at least 0.01 nm apart (the shrinker's ulp-apart pairs make every statement about a curve's
+    end or knot 'between two samples' rounding-decided)"""
+    out = []
+    for w in wave_nm:
+        out.append(w if not out or w - out[-1] >= 0.01 else out[-1] + 0.01)
+    return out
+
+
 @st.composite
 def qe_desc(draw, wave_nm):
     kind = draw(st.sampled_from(["scalar", "vector", "spectrum", "spectrum"]))
@@ -63,7 +72,7 @@ def qe_desc(draw, wave_nm):
         i = draw(st.integers(0, n - 2))
         a = ws[i] + 0.3 * (ws[i + 1] - ws[i]) if draw(st.booleans()) else max(lo, 10.0)
         b = ws[n - 2] + 0.7 * (ws[n - 1] - ws[n - 2]) if draw(st.booleans()) or a == max(lo, 10.0) else hi
-        if b > a:
+        if b - a > 1e-3 * m:             # (sampled wavelengths an ulp apart would give a curve with coinciding knots)
             w = np.linspace(a, b, m)
     return {"kind": kind, "w_nm": w, "v": np.random.default_rng(k).uniform(0, 1, size=m),
             "unit": draw(st.sampled_from(UNITS))}
@@ -90,7 +99,7 @@ def qe_values(d, wave_nm):
 @st.composite
 def charge_case(draw, tier):
     nw = draw(st.integers(1, 6))
-    wave_nm = sorted(draw(st.lists(gen.finite(350.0, 1100.0), min_size=nw, max_size=nw, unique=True)))
+    wave_nm = _spread(sorted(draw(st.lists(gen.finite(350.0, 1100.0), min_size=nw, max_size=nw, unique=True))))
     shape = draw(gen.shape2(1, 12))
     k = draw(st.integers(0, 2**31 - 1))
     img = np.random.default_rng(k).uniform(0, 1000, size=(nw,) + shape) * draw(gen.scales())
@@ -168,7 +177,7 @@ def bayer_case(draw, tier):
     mr, mc = draw(st.integers(1, 3)), draw(st.integers(1, 3))
     shape = (k * mr * os_, k * mc * os_)
     nw = draw(st.integers(1, 4))
-    wave_nm = sorted(draw(st.lists(gen.finite(350.0, 1100.0), min_size=nw, max_size=nw, unique=True)))
+    wave_nm = _spread(sorted(draw(st.lists(gen.finite(350.0, 1100.0), min_size=nw, max_size=nw, unique=True))))
     kk = draw(st.integers(0, 2**31 - 1))
     img = np.random.default_rng(kk).uniform(1, 1000, size=(nw,) + shape)
     same = draw(st.sampled_from([False, False, True]))
